@@ -14,7 +14,11 @@ import witgen, abivals
 
 # (variant, direction, async) combinations that guest backends actually use + the host-side duals
 USED_CALLS = {("GuestImport", "lower", "sync"), ("GuestExport", "lift", "sync"),
-              ("GuestExportAsync", "lift", "async")}
+              ("GuestExportAsync", "lift", "async"),
+              # C# exports async functions through GuestExport with async_ = true (crates/csharp/src/interface.rs)
+              ("GuestExport", "lift", "async")}
+# (Go calls abi::call for imports only in its non-async branch, i.e. with GuestImport; async imports of Go,
+#  Rust and MoonBit are written by hand in the backends and do not go through Generator::call.)
 HOST_CALLS = {("GuestExport", "lower", "sync"), ("GuestImport", "lift", "sync")}
 
 
